@@ -671,14 +671,18 @@ static void step(struct ctx *c, struct op op, const struct img *pre, struct img 
 			if (was_present) {
 				set_viol(o, "put-refused-for-present-key", "overwriting a key that is in the table was refused");
 			} else if (ffd < reach && c->lenient) {
-				int live = 0;
-				for (i = 0; i < u->nkeys; i++) {
-					live += c->present[i];
+				int live = live_keys(c);
+				if (live == 0) {
+					set_viol(o, "put-refused-with-empty-map-after-leaked-slots",
+					         "put refused although the reference map is EMPTY: all %u slots within reach of home bucket %u are occupied by copies leaked by earlier refused puts "
+					         "(%u leaked slots in the table)",
+					         reach, home, pre->nocc);
+				} else if (c->lenient == 1) {
+					set_viol(o, "put-refused-although-slot-in-reach-holds-only-a-leaked-copy",
+					         "put refused: the slot at distance %u from home bucket %u holds no live entry, only a copy leaked by an earlier refused put (reference map: %d keys, "
+					         "occupied slots: %u)",
+					         ffd, home, live, pre->nocc);
 				}
-				set_viol(o, "put-refused-although-slots-in-reach-hold-only-leaked-copies",
-				         "put refused: the reference map holds %d keys and the slot at distance %u from home bucket %u holds no live entry, but %u slots are occupied by copies "
-				         "leaked by earlier refused puts",
-				         live, ffd, home, pre->nocc);
 			} else if (ffd < reach) {
 				set_viol(o, "put-refused-with-free-slot-in-reach", "put refused although the slot at distance %u from home bucket %u is free (add_range %u, hop_range %u)", ffd, home,
 				         in->add_range, in->hop_range);
@@ -813,7 +817,7 @@ struct replay {
 	struct op ops[MAXOPS * 8];
 	int nseed; /* the first nseed ops are the deterministic seed */
 	char expect_key[160];
-	int lenient;
+	int lenient; /* 0 strict; 1 tolerate leaked slots; 2 additionally judge refusals only when the map is empty */
 };
 
 #define MAXREPLAYOPS (MAXOPS * 8)
@@ -830,7 +834,7 @@ static size_t replay_format(char *buf, size_t n, const struct universe *u, const
 	}
 	RP("ktype %s\norder %u\nhop %u\n", u->in->ktype_name, u->in->order, u->in->hop_bits);
 	if (lenient) {
-		RP("mode tolerate-leaked-slots\n");
+		RP("mode %s\n", lenient == 1 ? "tolerate-leaked-slots" : "tolerate-leaked-slots-until-map-empty");
 	}
 	RP("universe %d frozen %d\n", u->nkeys, u->nfrozen);
 	for (i = 0; i < u->nkeys; i++) {
@@ -917,7 +921,7 @@ static int replay_parse(const char *text, struct replay *r, char *err, size_t er
 			}
 			r->ops[r->nops++] = op;
 		} else if (!strcmp(w[0], "mode") && nw >= 2) {
-			r->lenient = !strcmp(w[1], "tolerate-leaked-slots");
+			r->lenient = !strcmp(w[1], "tolerate-leaked-slots") ? 1 : !strcmp(w[1], "tolerate-leaked-slots-until-map-empty") ? 2 : 0;
 		} else if (!strcmp(w[0], "expect-violation") && nw >= 2) {
 			snprintf(r->expect_key, sizeof(r->expect_key), "%s", w[1]);
 		} else {
